@@ -122,6 +122,17 @@ func establisherHandoff(c *kit.Ctx) {
 		c.Check(good, est, "del-only-when-gone", d.Pos(), "regions.del only where the lookup answered TableNotFound",
 			"the establisher deletes a region from the location cache although hbase:meta did not say it is gone (e.g. because the looked-up region lost against the cache): the deleted region can be the newest one - keys it serves are looked up again and the stale answer is cached in its place")
 	}
+	// (b'') ... and nobody else removes regions from the location cache by hand: del removes by name, so handing it
+	// a region object that merely has the name of a cached one (the throw-away result of a lookup that lost against
+	// the cache) removes the cached region - without marking it dead
+	for _, fn := range c.P.Funcs {
+		if fn == est || !c.P.IsSubject(fn) || fn.Blocks == nil || enclosingNamed(fn) == est {
+			continue
+		}
+		for _, d := range kit.Calls(fn, kit.M("", "*keyRegionCache", "del")) {
+			c.Bad(fn, "del-only-by-the-establisher", d.Pos(), "keyRegionCache.del is called outside establishRegion: it removes whatever cached region has the name of its argument (for the throw-away result of a lookup that lost against the cache that is the live, cached region, which is not marked dead): the cache changes although the discovery was refused", "")
+		}
+	}
 	// (c)
 	repl := kit.ExtractOf(put.Value(), 1)
 	ov := kit.ExtractOf(put.Value(), 0)
@@ -578,7 +589,6 @@ func headerExceptionIsClassified(c *kit.Ctx) {
 	if recv == nil || excF == nil {
 		return
 	}
-	x2e := kit.M("region", "", "exceptionToError")
 	n := 0
 	kit.Instrs(recv, func(in ssa.Instruction) {
 		r, ok := in.(*ssa.Return)
@@ -595,18 +605,8 @@ func headerExceptionIsClassified(c *kit.Ctx) {
 			return
 		}
 		n++
-		rv := kit.Root(returnedError(r))
-		// the result itself, or the same value after a type assertion narrowed it (serr, ok := x.(ServerError))
-		if ex, isEx := rv.(*ssa.Extract); isEx {
-			if ta, isTA := ex.Tuple.(*ssa.TypeAssert); isTA && ex.Index == 0 {
-				rv = kit.Root(ta.X)
-			}
-		}
-		if ta, isTA := rv.(*ssa.TypeAssert); isTA {
-			rv = kit.Root(ta.X)
-		}
-		call, ok := rv.(*ssa.Call)
-		c.Check(ok && kit.CalleeName(call) == x2e, recv, "exception-classified", r.Pos(), "the error of an exception response is the result of exceptionToError, unchanged", "an exception response can be turned into an error that did not come out of exceptionToError unchanged (e.g. because of its do_not_retry flag): the client's reaction no longer depends on the exception class alone - a stopping master, a moved region or a full call queue is reported to the caller instead of being retried")
+		good := isClassifiedError(returnedError(r), 0) || isClassifiedError(kit.Res(r, len(r.Results)-1), 0)
+		c.Check(good, recv, "exception-classified", r.Pos(), "the error of an exception response is the result of exceptionToError, unchanged", "an exception response can be turned into an error that did not come out of exceptionToError unchanged (e.g. because of its do_not_retry flag): the client's reaction no longer depends on the exception class alone - a stopping master, a moved region or a full call queue is reported to the caller instead of being retried")
 	})
 	if n == 0 {
 		c.Unk(recv, "exception-classified", recv.Pos(), "receive no longer returns on header.Exception != nil")
@@ -1336,7 +1336,22 @@ func noFetchedRowIsSkipped(c *kit.Ctx) {
 		return
 	}
 	resp := kit.ExtractOf(reqs[0].Value(), 0)
-	isResults := func(v ssa.Value) bool {
+	var isResults func(v ssa.Value) bool
+	isResults = func(v ssa.Value) bool {
+		// a loop-carried local that is nil at first and resp.Results afterwards (for len(rs) == 0 { ...; rs = resp.Results })
+		if ph, isPhi := v.(*ssa.Phi); isPhi {
+			some := false
+			for _, e := range ph.Edges {
+				if kit.IsNilConst(e) {
+					continue
+				}
+				if _, nested := e.(*ssa.Phi); nested || !isResults(e) {
+					return false
+				}
+				some = true
+			}
+			return some
+		}
 		u, ok := v.(*ssa.UnOp)
 		if !ok || u.Op != token.MUL {
 			return false
